@@ -13,7 +13,7 @@ from ..runner import Outcome, fail
 ID = 'C20'
 LEVEL = 'exploration'
 RULE = ('(limiter) generated limit L in [16,1e7] (optionally a different write limit), 1..6 streams sharing one RateLimitedIO, per stream a sequence of reads or '
-        'writes of sizes d <= L/4 (incl. 0, 1, L/4, and thousands of blocks of L/20000..L/1500 bytes) with occasional seek/tell/truncate and idle periods of the caller, underlying I/O latencies, sleep '
+        'writes of sizes d <= L/4 (incl. 0, 1, L/4, and thousands of blocks of L/20000..L/1500 bytes) with occasional seek/tell/truncate and idle periods of the caller, underlying I/O latencies, sinks that take only part of each write (raw-stream semantics, the caller resubmits the rest), sleep '
         'overshoots in [0,J] and a list of scheduling choices; executed under a deterministic discrete-event scheduler '
         '(virtual clock substituted for replicat.utils.time, scheduler-aware locks in the limiter). Oracle: for all pairs of '
         'event times s<=t the payload bytes that passed in [s,t] are <= L*(t-s) + B with B = L*(1+J) + n*d_max; bytes read '
@@ -66,7 +66,8 @@ def limiter_case(draw):
                     d = draw(st.integers(0, q))
                 ops.append(['io', d])
         streams.append({'mode': mode, 'ops': ops, 'latency': draw(st.lists(st.sampled_from([0.0, 0.0, 0.001, 0.01, 0.2, 1.5]), min_size=1, max_size=4)),
-                        'seed': draw(st.integers(0, 999))})
+                        'seed': draw(st.integers(0, 999)),
+                        'accept': draw(st.sampled_from([None, None, None, max(1, q // 2), max(1, q // 3), max(1, q // 5), max(1, q // 8)])) if mode == 'w' else None})
     J = draw(st.sampled_from([0.0, 0.001, 0.05]))
     return {'kind': 'limiter', 'L': L, 'streams': streams, 'J': J,
             'overshoots': draw(st.lists(st.sampled_from([0.0, J / 2, J]), min_size=1, max_size=5)),
@@ -104,9 +105,11 @@ class LatencyFile:
         self.events.append((self.sc.now, len(data), self.sid, _someone_sleeping_in_limiter(self.sc)))
         return data
 
+    accept = None           # raw-stream semantics: at most this many bytes are taken per write() call
+
     def write(self, data):
         self._wait()
-        n = self.raw.write(data)
+        n = self.raw.write(data if self.accept is None else bytes(data)[:self.accept])
         self.events.append((self.sc.now, n, self.sid, _someone_sleeping_in_limiter(self.sc)))
         return n
 
@@ -181,6 +184,7 @@ def _limiter(case):
                 model = io.BytesIO(src)
             else:
                 under = LatencyFile(sc, io.BytesIO(), st_['latency'], wevents, sid)
+                under.accept = st_.get('accept')
                 model = io.BytesIO()
             w = limiter.wrap(under)
 
@@ -197,10 +201,23 @@ def _limiter(case):
                         else:
                             chunk = src[pos:pos + o[1]]
                             pos += o[1]
-                            a, b = w.write(chunk), model.write(chunk)
-                            if a != b:
-                                problems.append(fail('write-count', f'stream {sid}: write returned {a}, underlying {b}'))
-                                return
+                            if st_.get('accept') is None:
+                                a, b = w.write(chunk), model.write(chunk)
+                                if a != b:
+                                    problems.append(fail('write-count', f'stream {sid}: write returned {a}, underlying {b}'))
+                                    return
+                            else:
+                                # the underlying stream takes only part of each write: the caller resubmits the rest, as with any raw stream
+                                model.write(chunk)
+                                rem = chunk
+                                while True:
+                                    a = w.write(rem)
+                                    if not isinstance(a, int) or a < 0 or a > len(rem) or (a == 0 and rem):
+                                        problems.append(fail('write-count', f'stream {sid}: write of {len(rem)} bytes returned {a!r}'))
+                                        return
+                                    rem = rem[a:]
+                                    if not rem:
+                                        break
                     elif o[0] == 'seek':
                         size = len(model.getvalue())
                         target = [0, size // 2, size, max(0, size - 1)][o[1] % 4]
